@@ -6,6 +6,7 @@
   DOC_SAME_AS    for every row whose description contains the unqualified sentence "Same as `X`." :
                  ("%<spec>", X); plus footnote 5 of `%+` ("Same as `X`, i.e. ...")
   DOC_MODIFIERS  the padding-modifier table below it: (modifier character, description)
+  DOC_FOOTNOTE7  the example of footnote 7: what 7 microseconds print with `%f` and with `%.f`
 
 `Chrono.Props.C12.doc_table_is_source` states that the Spec's transcription (`Spec.StrftimeDoc.docRows`,
 each row with its formal reading) is exactly this table; a changed, added or removed documentation row
@@ -74,6 +75,9 @@ def extract(api):
             mods.append((mm.group(1), mm.group(2)))
     if len(mods) != 3:
         raise LookupError("padding modifier table: %d rows" % len(mods))
+    m7 = re.search(r"Example: 7μs is formatted as `([^`]*)` with `%f`, and formatted as `([^`]*)` with `%\.f`\.", doc)
+    if not m7:
+        raise LookupError("footnote 7 example not found")
     t = api.hdr + "namespace Chrono.Extracted\n\n"
     t += "/-- rows of the \"Specifiers\" table of the module documentation: (specifier text after `%`, example, description) -/\n"
     t += "def DOC_TABLE : List (String × String × String) := [\n  " + ",\n  ".join(
@@ -84,6 +88,8 @@ def extract(api):
     t += "/-- the padding-modifier table: (modifier character, description) -/\n"
     t += "def DOC_MODIFIERS : List (String × String) := [\n  " + ",\n  ".join(
         f"({lean_str(s)}, {lean_str(x)})" for s, x in mods) + "]\n\n"
+    t += "/-- footnote 7: 7 microseconds with `%f` and with `%.f` -/\n"
+    t += f"def DOC_FOOTNOTE7 : String × String := ({lean_str(m7.group(1))}, {lean_str(m7.group(2))})\n\n"
     t += "end Chrono.Extracted\n"
     return t
 
